@@ -244,3 +244,11 @@ single_aliquot_unpacker_regex = re.compile(r"((?P<aliquot_no_frac>[NESW]{1,2}|AL
 
 aliquot_unpacker_regex = re.compile(
     r'\b(([NESW]½)|((NE|NW|SE|SW)¼))+\b')
+
+
+# Same, but will also match 'ALL' (as named group 'all') if it is clear
+# of any context -- i.e. if it is followed by nothing but a comma,
+# semicolon, linebreak, or the end of the string.
+aliquot_or_clear_all_regex = re.compile(
+    fr"({aliquot_unpacker_regex.pattern})"
+    r"|(\b(?P<all>(?i:ALL))\b(?=[^\S\r\n]*([,;\r\n]|$)))")
